@@ -292,6 +292,22 @@ def renderL (ci : SCls → ClsInfo) (f : Fmt) (pname : Option PStr) : List Node 
   | n :: ns => renderSpec ci f pname n ++ renderL ci f pname ns
 end
 
+/-! ### spec of the event stream: the structural recursion over the tree -/
+
+mutual
+/-- the events of one node: `EMPTY` for a childless tag that can be empty, else `START`, the children's events, `END`;
+    `STRING` for a string. Items as `flatten` numbers them. -/
+def specEvents (par : Option Nat) (pname : Option PStr) (k : Nat) : Node → List (Ev × Item)
+  | .tag i kids =>
+    if kids.isEmpty && i.cbe then [(Ev.empty, ⟨k, par, .tag i kids.length⟩)]
+    else (Ev.start, ⟨k, par, .tag i kids.length⟩) ::
+      (specEventsL (some k) (some i.name) (k + 1) kids ++ [(Ev.stop, ⟨k, par, .tag i kids.length⟩)])
+  | .str c s => [(Ev.string, ⟨k, par, .str c s pname⟩)]
+def specEventsL (par : Option Nat) (pname : Option PStr) (k : Nat) : List Node → List (Ev × Item)
+  | [] => []
+  | n :: ns => specEvents par pname k n ++ specEventsL par pname (k + (flatten par pname k n).length) ns
+end
+
 /-- the children of a node (`[]` for a string) -/
 def Node.kids : Node → List Node
   | .tag _ ks => ks
